@@ -330,6 +330,10 @@ func (fr *Frame) panicObl(b *ssa.BasicBlock, idx int, kind string, safe string, 
 	if fr.fcTop() != nil && fr.fcTop().MayPanic && kind == "explicit" {
 		check = false
 	}
+	if fc := fr.fcTop(); fc != nil && fc.MayPanicBounds != "" && fr.parent == nil && (kind == "index" || kind == "slice" || kind == "makeslice") {
+		check = false
+		u.note("index and slice bounds inside " + shortKey(u.Name) + " are assumed, not proved (" + fc.MayPanicBounds + ")")
+	}
 	if check {
 		name := fmt.Sprintf("%s#panic:%s:%s", u.Name, kind, fr.instrID(b, idx))
 		pos := u.P.Fset.Position(ins.Pos())
@@ -553,6 +557,16 @@ func (fr *Frame) execInstr(b *ssa.BasicBlock, idx int, ins ssa.Instruction, st *
 	case *ssa.Range:
 		x := fr.val(ins.X)
 		fr.vals[ins] = &Val{T: ins.Type(), S: x.S}
+		if mt, ok := types.Unalias(ins.X.Type()).Underlying().(*types.Map); ok {
+			// ghost set of the keys this range has produced so far: empty at the start
+			vis := fr.visitedSet(ins, mt)
+			so := "(Array " + u.S.sortOf(mt.Key()) + " Bool)"
+			if fr.dry {
+				fr.setComp(st, vis, so, "x")
+			} else {
+				fr.setComp(st, vis, so, "((as const "+so+") false)")
+			}
+		}
 	case *ssa.Next:
 		fr.next(ins, st, reach)
 	case *ssa.Panic:
